@@ -34,14 +34,17 @@ var awkwardTables = [][]string{
 	{"/*{x}", "/*{x}/b", "/a/*{y}/b"},
 	{"/a*{x}/b/", "/a{x}/b"},
 	// shapes taken from seeded changes (DESIGN.md 13.6): every counter-example becomes permanent
-	{"{h}.b/{x}", "{h}.b/a/{y}"},                          // tsr below a host after an abandoned alternative
-	{"a.b/{x}/a", "{h}.b/{y}/b"},                          // path parameters of a failed host candidate
-	{"/{x}/b/a", "/{x}/{y}/ab/a", "/{x}/{y}/{x}/abc"},     // two nested backtracks below a captured parameter
-	{"a.{h}.b/", "{h}.{g}.ab/", "/"},                      // parameter counters across host backtracking
+	{"{h}.b/{x}", "{h}.b/a/{y}"},                      // tsr below a host after an abandoned alternative
+	{"a.b/{x}/a", "{h}.b/{y}/b"},                      // path parameters of a failed host candidate
+	{"/{x}/b/a", "/{x}/{y}/ab/a", "/{x}/{y}/{x}/abc"}, // two nested backtracks below a captured parameter
+	{"a.{h}.b/", "{h}.{g}.ab/", "/"},                  // parameter counters across host backtracking
 	{"{h}.b/*{w}/a", "{h}.b/a/{y}/"},
+	{"/a/$m", "/a/*{w}"},           // a static sibling that sorts before '*' (seeded C01-3)
+	{"/a/~u", "/a/{x}", "/a/*{w}"}, // and one that sorts after '{'
+	{"/a/!b/c", "/a/{x}/c", "/a/*{w}/d"},
 }
 
-var awkwardPaths = []string{"/a/b/ab/abc", "/a/b/a/", "/ab/a/a", "/a", "/b/", "/abb/", "/abc/", "/a/a/a/a", "/a/a/a/ab", "/ab", "/a/b/b", "/a/b/", "/ab/b", "/ab/b/"}
+var awkwardPaths = []string{"/a/c", "/a/$n", "/a/~v", "/a/c/d", "/a/b/ab/abc", "/a/b/a/", "/ab/a/a", "/a", "/b/", "/abb/", "/abc/", "/a/a/a/a", "/a/a/a/ab", "/ab", "/a/b/b", "/a/b/", "/ab/b", "/ab/b/"}
 var awkwardHosts = []string{"b.a.a.a", "a.ab", "a.b.ab", "a.ab:8080", "aa.abb.abb", "a.b", "a.b.a", "a.b.b", "b.a.b"}
 
 type matchGen struct {
